@@ -1,5 +1,6 @@
 import YardlProofs.StreamsW
 import YardlProofs.WireRoundTrip
+import YardlProofs.StreamCompose
 
 /-!
 # C03 — Streams are portable across target languages and formats (binary part)
@@ -51,5 +52,19 @@ theorem union_index_encodings_agree_iff (i : Nat) (hi : i < 256) :
   · intro h
     unfold encVar
     simp [h]
+
+/-- **Across languages at the stream level**: what the Python output stream model emits for any item sequence the C++
+    input stream model reads back as exactly those items, and what the C++ output stream emits the Python input stream
+    reads back — all four buffer capacities independent, refill boundaries anywhere, anything may follow. -/
+theorem streams_cross_languages (items : List CItem) (hi : ∀ i ∈ items, i.ok)
+    (w : COS) (hw : 10 ≤ w.cap) (hwinv : w.Inv) (hwe : w.abs = []) (rest : Bytes) :
+    (∀ r : CIS, 10 ≤ r.cap → r.Inv → r.pending = (Py.run w (items.map CItem.toW)).abs ++ rest →
+      ∃ r', r.readItems items = .ok (items.map CItem.val) r' ∧ r'.pending = rest) ∧
+    (∀ r : PIS, 0 < r.cap → r.Inv → r.pending = (Cpp.run w (items.map CItem.toW)).abs ++ rest →
+      ∃ r', r.readItems (items.map CItem.toR) = .ok ((items.map CItem.val).map CItem.rval) r' ∧ r'.pending = rest) :=
+  ⟨(Yardl.written_by_either_read_by_either items hi w hw hwinv hwe _ (Or.inr rfl) rest).1,
+   (Yardl.written_by_either_read_by_either items hi w hw hwinv hwe _ (Or.inl rfl) rest).2⟩
+
+example : (⟨10, [], [], false⟩ : COS).Inv ∧ (⟨10, [], [], false⟩ : COS).abs = [] := by simp [COS.Inv, COS.abs]
 
 end Yardl.C03
